@@ -93,9 +93,11 @@ func (w *Wrapper) Marshal(r Record, format uint8) ([]byte, error) {
 		return nil, errors.New("could not dump model, wrapped object format mismatch")
 	}
 
-	data := make([]byte, len(w.Data)+1)
-	data[0] = w.Format
-	copy(data[1:], w.Data)
+	// The format is read back as a varint (see NewRawWrapper and dsd.Load).
+	formatID := varint.Pack8(w.Format)
+	data := make([]byte, 0, len(formatID)+len(w.Data))
+	data = append(data, formatID...)
+	data = append(data, w.Data...)
 
 	return data, nil
 }
